@@ -65,7 +65,10 @@ fn build(cfg: &Cfg) -> App<()> {
 }
 
 fn check_cfg(s: &mut Stats, cfg: &Cfg, cases: &[Case]) {
-    let parts = build(cfg).verif_into_parts();
+    let Ok(parts) = std::panic::catch_unwind(std::panic::AssertUnwindSafe(|| build(cfg).verif_into_parts())) else {
+        s.violation(format!("{}building the application through the public API panicked", if "tokio".is_empty() { String::new() } else { format!("[{}] ", "tokio") }), || serde_json::json!({"hosts": format!("{:?}", cfg.hosts), "default_routes": cfg.default_routes}));
+        return;
+    };
     s.states += 1;
     if !cfg.hosts.is_empty() {
         s.nontrivial += 1;
